@@ -284,12 +284,35 @@ def run(ctx):
     env = dict(os.environ, ASAN_OPTIONS='allocator_may_return_null=1:hard_rss_limit_mb=6000:detect_leaks=1:abort_on_error=0', UBSAN_OPTIONS='print_stacktrace=1')
     os.environ.update(ASAN_OPTIONS=env['ASAN_OPTIONS'], UBSAN_OPTIONS=env['UBSAN_OPTIONS'])
     t0 = time.time()
-    out = run_cases([hexe], lines, tmo=500, workers=6)
-    ctx.log('implementation (asan): %d programs in %.1fs' % (len(lines), time.time() - t0))
-    opcount = {}; fails = {}; softs = {}; ncalls = nerrs = 0; slowest = {}; nintr = nafter = nintrprog = 0
+    # The programs run in batches.  A call that does not return costs its whole limit; once an entry point has timed out twice
+    # outside every known-finding key (two concrete violations), the remaining programs that call it are not executed: they would
+    # only repeat the same failure at the same price.  On a tree without such a failure nothing is skipped.
     known = [k for k in ctx.known if k.get('status') == 'known']
+    out = []; hung = {}; nskipped = 0
+    BATCH = 300
+    for b0 in range(0, len(lines), BATCH):
+        batch = lines[b0:b0 + BATCH]
+        bad = {op_ for op_, n_ in hung.items() if n_ >= 2}
+        todo = []
+        for l in batch:
+            names = set(c.strip().split(' ')[0] for c in l.split(' #')[0].split(' ; '))
+            todo.append(None if names & bad else l)
+        res = run_cases([hexe], [l for l in todo if l is not None], tmo=500, workers=6)
+        it_ = iter(res)
+        for l in todo:
+            if l is None:
+                out.append('SKIPPED'); nskipped += 1; continue
+            o = next(it_); out.append(o)
+            r0 = parse_result(o)
+            if r0.get('v') == 'FAIL' and r0.get('kind') == 'timeout' and r0.get('op') and not any(match_known(e, 'timeout', r0['op'], r0['desc'], r0['detail']) for e in known):
+                hung[r0['op']] = hung.get(r0['op'], 0) + 1
+    ctx.log('implementation (asan): %d programs in %.1fs%s' % (len(lines) - nskipped, time.time() - t0, (' (%d programs skipped: they call %s, which already timed out twice)' % (nskipped, ', '.join(sorted(op_ for op_, n_ in hung.items() if n_ >= 2)))) if nskipped else ''))
+    ctx.notes['programs_skipped_after_repeated_timeouts'] = dict(skipped=nskipped, entry_points=sorted(op_ for op_, n_ in hung.items() if n_ >= 2))
+    opcount = {}; fails = {}; softs = {}; ncalls = nerrs = 0; slowest = {}; nintr = nafter = nintrprog = 0
     nviol = 0
     for line, o in zip(lines, out):
+        if o == 'SKIPPED':
+            continue
         r = parse_result(o)
         calls = line.split(' #')[0].split(' ; ')
         for c in calls:
@@ -303,16 +326,16 @@ def run(ctx):
         ctx.count(line, nontrivial)
         problems = []
         if r['v'] == 'FAIL':
-            problems.append((r['kind'], r['op'], r['desc'], r['detail']))
+            problems.append((r['kind'], r['op'], r['desc'], r['detail'], r.get('call', -1)))
         elif r['v'] != 'OK':
-            problems.append(('harness', '', '', str(r)))
+            problems.append(('harness', '', '', str(r), -1))
         for sft in r.get('soft', []):
             m = re.match(r'\s*([VS]) (-?\d+) (\S+?)\((.*?)\) (.*)$', sft)
             if m:
-                problems.append(('soft:' + m.group(5).split(' ')[0].split('-')[0] if m.group(1) == 'V' else 'slow', m.group(3), m.group(3) + '(' + m.group(4) + ')', m.group(5)))
+                problems.append(('soft:' + m.group(5).split(' ')[0].split('-')[0] if m.group(1) == 'V' else 'slow', m.group(3), m.group(3) + '(' + m.group(4) + ')', m.group(5), -1))
             else:
-                problems.append(('soft', '', '', sft))
-        for kind, op, desc, detail in problems:
+                problems.append(('soft', '', '', sft, -1))
+        for kind, op, desc, detail, callidx in problems:
             hit = next((e for e in known if match_known(e, kind, op, desc, detail)), None)
             key = '%s %s' % (kind, op)
             fails[key] = fails.get(key, 0) + 1
@@ -324,7 +347,10 @@ def run(ctx):
                 continue
             nviol += 1
             if nviol <= 8:
-                shr = shrink_program(hexe, line, kind, op, _run_chunk)
+                ntmo_shrunk = getattr(ctx, '_c12_tmo', 0)
+                shr = shrink_program(hexe, line, kind, op, _run_chunk, callidx) if (kind != 'timeout' or ntmo_shrunk < 3) else None
+                if kind == 'timeout':
+                    ctx._c12_tmo = ntmo_shrunk + 1
                 pth = os.path.join(ROOT, 'replays', 'C12_prog_%s.txt' % hashlib.md5(line.encode()).hexdigest()[:12])
                 open(pth, 'w').write((shr or line) + '\n')
                 ctx.violation('%s_%s_%d' % (kind.replace(':', '_'), op, nviol),
@@ -353,27 +379,62 @@ def run(ctx):
         ctx.broken.append(dict(kind='generator', name='distribution', detail='%d of %d modelled entry points were never called: %s' % (len(missing), len(allops), missing[:20])))
 
 
-def shrink_program(hexe, line, kind, op, runner):
-    """drop calls (later calls that used a dropped result are skipped by the harness) while the same failure persists"""
+def shrink_program(hexe, line, kind, op, runner, callidx=-1):
+    """the failing call with the calls that produced its arguments, then drop calls one by one (later calls that used a dropped
+    result are skipped by the harness) while the same failure persists.  A trial of a program that hangs costs the per-call limit:
+    for time-outs the trials run with a 4 s limit, few of them, and the result is confirmed once with the full limit."""
     try:
         prog, _, poolspec = line.partition(' #')
         calls = prog.split(' ; ')
+        hang = kind == 'timeout'
 
-        def fails(cs):
-            o = runner([hexe], [' ; '.join(cs) + ' #' + poolspec], 120)[0]
+        def fails(cs, quick_limit=False):
+            old = os.environ.get('C12_CALL_TIMEOUT')
+            if quick_limit:
+                os.environ['C12_CALL_TIMEOUT'] = '4'
+            try:
+                o = runner([hexe], [' ; '.join(cs) + ' #' + poolspec], 120)[0]
+            finally:
+                if quick_limit:
+                    if old is None:
+                        os.environ.pop('C12_CALL_TIMEOUT', None)
+                    else:
+                        os.environ['C12_CALL_TIMEOUT'] = old
             r = parse_result(o)
             if kind.startswith('soft') or kind == 'slow':
                 return any(op in s for s in r.get('soft', []))
             return r['v'] == 'FAIL' and r.get('kind') == kind and (not op or r.get('op') == op)
-        if not fails(calls):
+
+        def closure(cs, k):
+            keep = {k}; work = [k]
+            res = [re.search(r' > h(\d+)', c) for c in cs]
+            while work:
+                i = work.pop()
+                for h in re.findall(r'\bh(\d+)\b', cs[i].split(' > ')[0]):
+                    for j in range(i - 1, -1, -1):
+                        if res[j] and res[j].group(1) == h:
+                            if j not in keep:
+                                keep.add(j); work.append(j)
+                            break
+            return [cs[i] for i in sorted(keep)]
+        full = calls
+        if 0 <= callidx < len(calls):
+            cand = closure(calls, callidx)
+            if len(cand) < len(calls) and fails(cand, hang):
+                calls = cand
+            elif hang:
+                return None                     # the original program is the replay; no further trials at 10 s each
+        elif hang or not fails(calls):
             return None
-        i = len(calls) - 1; budget = 80
-        while i >= 0 and budget > 0:
+        i = len(calls) - 1; budget = 6 if hang else 80
+        while i >= 0 and budget > 0 and len(calls) > 1:
             cand = calls[:i] + calls[i + 1:]
             budget -= 1
-            if cand and fails(cand):
+            if cand and fails(cand, hang):
                 calls = cand
             i -= 1
+        if hang and calls is not full and not fails(calls):
+            return None                         # not confirmed with the full limit
         return ' ; '.join(calls) + ' #' + poolspec
     except Exception:
         return None
